@@ -1,3 +1,4 @@
+import re
 """C03 — tokens are bit-exact PASETO: construction equals the specification; sibling backends agree."""
 from ops import *
 from norm import fn as fmt_n
@@ -183,6 +184,10 @@ def classify_unseal_exit(run, r):
         return ("verification", "")
     if isinstance(cause, tuple) and cause[0] == "fallible":
         return ("library-reported", cause[2])
+    if isinstance(n, tuple) and n and n[0] == "call" and re.search(r"core::num::<impl usize>::(checked_sub|checked_add)$", n[1]) \
+            and "len" in s and "payload" in s and all(isinstance(a, tuple) and a and a[0] in ("int", "len") for a in n[2]):
+        # `payload.len().checked_sub(K)` failing is the length condition  len < K
+        return ("length", s[:100])
     if isinstance(n, tuple) and n and n[0] == "call":
         if any(n[1].startswith(p) for p in PARSE_OK):
             return ("signature-parse", n[1])
